@@ -1,0 +1,33 @@
+use codegen::Scope;
+
+use super::{FragmentGenerator, FragmentGeneratorSpecs};
+use crate::generator::{CAP, CAP_GENERIC};
+
+/// The data buffer cannot tell whether or not it is thread safe, the record knows it from the
+/// types of its fields.
+pub struct AutoTraitsImplGenerator;
+
+impl FragmentGenerator for AutoTraitsImplGenerator {
+    fn generate(&self, specs: &FragmentGeneratorSpecs, scope: &mut Scope) {
+        let record_spec = &specs.record;
+
+        // The capacity is part of the bound so that it is evaluated lazily, for the records that
+        // are really moved to or shared with another thread.
+        let thread_safe_fields = format!(
+            "({}[u8; {}],): Send + Sync",
+            record_spec
+                .data
+                .iter()
+                .flat_map(|datum| [datum.details().type_name(), ", "])
+                .collect::<String>(),
+            CAP,
+        );
+
+        for auto_trait in ["Send", "Sync"] {
+            scope.raw(format!(
+                "unsafe impl<{}> {} for {}<{}> where {} {{}}",
+                CAP_GENERIC, auto_trait, record_spec.capped_record_name, CAP, thread_safe_fields,
+            ));
+        }
+    }
+}
